@@ -169,13 +169,14 @@ KF13(impl, st, c) ==
        /\ ~IsDir(st, ro.id) /\ ro.nm # rn.nm /\ LastKind(c.p) = "norm" /\ LastKind(c.q) = "norm"
     THEN {Dev("KF13", Ok(Gc(DelEntry(st, Last(ro.par), ro.name))), "ok", FALSE)} ELSE {}
 
-(* KF14  OrefaFS: creating below a path that runs through a regular file more than one level up
+(* KF14  OrefaFS: looking up or creating below a path that runs through a regular file more than one level up
          (the parent itself is not in the index) answers ENOENT where Linux answers ENOTDIR:
-         OpenFile/Create/WriteFile/CreateTemp and the new name of Link and Rename. *)
+         Stat/Lstat/ReadFile/ReadDir/OpenFile/Create/WriteFile/CreateTemp and the new name of Link and Rename. *)
 ParentOf(p) == [abs |-> p.abs, parts |-> Front(p.parts)]
 KF14(impl, st, c) ==
     LET viaFile(p) == p.parts # <<>> /\ Res(st, ParentOf(p), FALSE).err = "ENOTDIR" IN
-    IF Orefa(impl) /\ (\/ (c.op \in {"openclose", "open", "create", "writefile"} /\ viaFile(c.p))
+    IF Orefa(impl) /\ (\/ (c.op \in {"openclose", "open", "create", "writefile", "stat", "lstat", "readfile", "readdir"}
+                           /\ viaFile(c.p))
                        \/ (c.op = "createtemp" /\ Res(st, c.p, FALSE).err = "ENOTDIR")
                        \/ (c.op \in {"link", "rename"} /\ viaFile(c.q)))
     THEN {Dev("KF14", Fail("ENOENT", st), "ok", FALSE)} ELSE {}
